@@ -144,6 +144,7 @@ def main():
     seed = int(os.environ.get("VERIF_SEED", "0") or 0)
     hpath = find_harness(pid)
     mod = importlib.import_module(hpath)
+    ex.preimport_library()
     if a.replay:
         sys.exit(do_replay(pid, mod, a.replay))
 
